@@ -267,9 +267,15 @@ class LoopParser(SubParser):
         code_gen.if_else(marker)
         code_gen.push(360)
         code_gen.if_end(marker)
+        code_gen.pop(LoopVar.INCR)
+        # With no iterations there is no increment; don't divide by zero.
+        code_gen.test_op(Operator.GT, LoopVar.COUNTER, 0)
+        marker = code_gen.if_true_start()
+        code_gen.push(LoopVar.INCR)
         code_gen.push(LoopVar.COUNTER)
         code_gen.add_instruction(OpCode.OP, Operator.DIV)
         code_gen.add_instruction(OpCode.POP, LoopVar.INCR)
+        code_gen.if_end(marker)
         return True
 
     def _loop_test(self, code_gen) -> bool:
